@@ -265,7 +265,13 @@ fn read_all(data: &[u8], pieces: &[usize]) -> Result<Vec<String>, String> {
     let mut out = Vec::new();
     loop {
         match reader.read(&mut cb, &mut buffer) {
-            Ok(Some(item)) => out.push(format!("{:?}", item)),
+            Ok(Some(item)) => {
+                out.push(format!("{:?}", item));
+                // the accumulated state the reader exposes next to the items (positions and inputs
+                // per client id) is part of what must not depend on the fragmentation
+                let st: Vec<String> = reader.cids().map(|c| format!("{:?}/{:?}", reader.player_pos(c).map(|p| (p.x, p.y)), reader.input(c).map(|i| i.to_vec()))).collect();
+                out.push(format!("STATE {}", st.join(" ")));
+            }
             Ok(None) => return Ok(out),
             Err(e) => {
                 out.push(format!("ERROR {:?}", e));
@@ -284,6 +290,9 @@ fn check_structure(evs: &[Ev], items: &[String]) -> Result<(), String> {
     let mut open: Option<i32> = None;
     let mut last_tick: Option<i32> = None;
     for it in items {
+        if it.starts_with("STATE ") {
+            continue;
+        }
         if let Some(t) = it.strip_prefix("TickStart(").and_then(|s| s.strip_suffix(')')) {
             let t: i32 = t.parse().unwrap();
             if open.is_some() {
